@@ -23,11 +23,13 @@ produces it (`CodeLimit/Spec/ProgTree.lean`):
 * `treeReport` / `treeReportFlat` / `parentsOf` / `topFnsOf` - the expected report and the
   nesting, read off the tree without token indices.
 
-Results, for EVERY forest (induction over the tree, no bound on size, order or depth):
+Results, by induction over the tree (no bound on size, order or depth):
 
 * G1 `blocks_of_tree` - `get_blocks` finds exactly the blocks of the tree;
-* G2 `layout_of_tree`, `layout_of_rendered_tree` - the token sequence with `fnsOf`, `blocksOf`
-  is a canonical `Layout`; `render_pos_sorted` - rendered locations strictly increase;
+* G2 `layoutCore_of_tree` - the token sequence with `fnsOf`, `blocksOf` satisfies every layout
+  clause that is a fact about well-formed files (`LayoutCore`); `layout_of_tree`,
+  `layout_of_rendered_tree` - with `noAdj` it is a canonical `Layout`; `render_pos_sorted` -
+  rendered locations strictly increase;
 * G3 `parent_of_tree`, `topLevel_of_tree`, `own_lines_of_tree`, `expected_of_tree`,
   `expectedFlat_of_tree` - the
   index-level specification of stage A (`parent`, `ownLines`, `expected`) is the tree-level one
@@ -36,36 +38,70 @@ Results, for EVERY forest (induction over the tree, no bound on size, order or d
 * G4 `scan_of_tree_partial`, `scan_of_rendered_tree_partial` - if header discovery finds the
   headers of the function nodes, `scan_file` returns exactly the tree report.
 
-Header discovery (`extractHeaders … = .ok hs` with `hs` a permutation of the headers of the
-function nodes) stays a hypothesis (C13-C15 / `Props/C01disc.lean`); the examples at the end
-discharge it by kernel evaluation for C++, JavaScript and Java.
-
-`_partial`: the statement needs `noAdj`.  Without it, it is false
-(`scan_of_tree_full_false`): the tree of `f ( ) { a ; } { b ; }` satisfies `wfCore`, Java finds
-its header, and `scan_file` reports `f` with the following block merged into it
+Which hypotheses are needed where: G1, `layoutCore_of_tree` and G3 hold for EVERY structurally
+well-formed forest (`wfCore`; `adjTree_G123` instantiates them on a forest that violates
+`noAdj`).  `layout_of_tree` and G4 need the canonical-fragment restriction `noAdj` in addition
+(Appendix A of the design: "a body's `}` is not immediately followed by `{`").  Without it G4 is
+false (`scan_of_tree_full_false`): the tree of `f ( ) { a ; } { b ; }` satisfies `wfCore`, Java
+finds its header, and `scan_file` reports `f` with the following block merged into it
 (`C01.adjacent_block_is_merged`).
+
+**Naming.**  `_partial` marks the theorems of this file that are CONDITIONAL on an intermediate
+result of the analysis: G4 assumes `extractHeaders … = .ok hs` with `hs` a permutation of the
+headers of the function nodes (header discovery; C13-C15 / `Props/C01disc.lean`).  That hypothesis
+is discharged - replaced by decidable conditions on the tree - in `Props/C01full.lean` (C, C++, C#,
+Java, JavaScript, TypeScript), `Props/C01arrow.lean` (assigned arrow functions) and
+`Props/C01marks.lean` (comments and markers); the examples at the end of this file discharge it by
+kernel evaluation for C++, JavaScript and Java.  The restrictions that Appendix A of the design
+declares part of "canonical" (`noAdj`, the clauses of `Canon`) do not earn the suffix; each of them
+has a kernel-checked witness that it cannot be dropped.
 -/
 namespace CL.C01tree
 
-/-! ## G1, G2: blocks and layout -/
+/-! ## G1, G2: blocks and layout
 
-/-- **G1.  `get_blocks` finds exactly the blocks of the tree.**  For every well-formed forest
-whose token locations strictly increase, `get_blocks` on its token sequence returns the token
-ranges of all its groups, function bodies and groups inside headers, in source order. -/
-theorem blocks_of_tree {p : Prog Tok} (hw : p.wfCore = true) (ha : p.noAdj = true)
-    (hpos : PosSorted p.flat) : getBlocks p.flat = .ok p.blocks :=
-  getBlocks_prog (Prog.wf_of hw ha) hpos
+G1 - G3 need the STRUCTURAL conditions `wfCore` only: they hold for every structurally well-formed
+forest, also when a brace group directly follows a function (`adjTree` below is an instance).  The
+canonical-fragment restriction `noAdj` enters in exactly two places: the layout clause
+`Layout.no_adjacent` (`layout_of_tree`) and G4. -/
 
-/-- **G2.  The token sequence of a well-formed forest is a canonical layout** (all clauses of
-`FnLayout`, `LayoutCore` and `no_adjacent`) with the functions and blocks of the tree. -/
+/-- **G1.  `get_blocks` finds exactly the blocks of the tree.**  For every structurally
+well-formed forest whose token locations strictly increase, `get_blocks` on its token sequence
+returns the token ranges of all its groups, function bodies and groups inside headers, in source
+order.  (No `noAdj`.) -/
+theorem blocks_of_tree {p : Prog Tok} (hw : p.wfCore = true) (hpos : PosSorted p.flat) :
+    getBlocks p.flat = .ok p.blocks :=
+  getBlocks_prog_core hw hpos
+
+/-- **G2, the part that holds for every well-formed file.**  The token sequence of a structurally
+well-formed forest, with the functions and blocks of the tree, satisfies every clause of
+`FnLayout` and `LayoutCore` - all layout clauses except `no_adjacent`.  (No `noAdj`.) -/
+theorem layoutCore_of_tree {p : Prog Tok} (hw : p.wfCore = true) (hpos : PosSorted p.flat) :
+    LayoutCore p.flat p.fns p.blocks :=
+  layoutCore_prog hw hpos
+
+/-- **G2.  The token sequence of a well-formed forest of the canonical fragment is a canonical
+layout**: `layoutCore_of_tree` plus the clause `no_adjacent`, which is what `noAdj` says on the
+tree. -/
 theorem layout_of_tree {p : Prog Tok} (hw : p.wfCore = true) (ha : p.noAdj = true)
     (hpos : PosSorted p.flat) : Layout p.flat p.fns p.blocks :=
   layout_prog (Prog.wf_of hw ha) hpos
 
-/-- the function clauses alone need no hypothesis on locations -/
-theorem fnLayout_of_tree {p : Prog Tok} (hw : p.wfCore = true) (ha : p.noAdj = true) :
+/-- the function clauses alone need no hypothesis on locations (and no `noAdj`) -/
+theorem fnLayout_of_tree {p : Prog Tok} (hw : p.wfCore = true) :
     FnLayout p.fns p.blocks :=
-  (tinv_of_wf p 0 (Prog.wf_of hw ha)).fnLayout
+  (tinv_of_wfCore p 0 hw).fnLayout
+
+/-- the clause `noAdj hdr` inside `Prog.noAdj` is vacuous for well-formed forests: a header contains
+no function node, and a forest without function nodes satisfies `noAdj` -/
+theorem noAdj_of_noFn {α : Type} : ∀ (p : Prog α), p.noFn = true → p.noAdj = true
+  | .nil, _ => rfl
+  | .leaf _ rest, h => noAdj_of_noFn rest h
+  | .group _ _ items rest, h => by
+    simp only [Prog.noFn, Bool.and_eq_true] at h
+    simp only [Prog.noAdj, Bool.and_eq_true]
+    exact ⟨noAdj_of_noFn items h.1, noAdj_of_noFn rest h.2⟩
+  | .fn .., h => by cases h
 
 /-- **The renderer assigns strictly increasing locations**, whatever the line breaks and blank
 columns of the tokens are. -/
@@ -85,36 +121,38 @@ theorem map_some_injective {α : Type} {a b : List α} (h : a.map some = b.map s
 /-- **Nesting.**  The `parent` of the layout specification (the last function of the file that
 starts before `g` and ends no earlier) is, for every function node, its innermost enclosing
 function node: `parentsOf` lists, in preorder, `none` for the function nodes outside every
-function body and the enclosing node's record for the others. -/
-theorem parent_of_tree {p : Prog Tok} (hw : p.wfCore = true) (ha : p.noAdj = true)
+function body and the enclosing node's record for the others.  (No `noAdj`.) -/
+theorem parent_of_tree {p : Prog Tok} (hw : p.wfCore = true)
     (hpos : PosSorted p.flat) : p.fns.map (parent p.fns) = parentsOf p 0 none :=
-  parents_prog (Prog.wf_of hw ha) (layout_of_tree hw ha hpos).toLayoutCore.nested
+  parents_prog_core hw (layoutCore_of_tree hw hpos).nested
 
 /-- the functions without parent are the function nodes not inside another function node -/
-theorem topLevel_of_tree {p : Prog Tok} (hw : p.wfCore = true) (ha : p.noAdj = true)
+theorem topLevel_of_tree {p : Prog Tok} (hw : p.wfCore = true)
     (hpos : PosSorted p.flat) : topLevel p.fns = topFnsOf p 0 :=
-  topLevel_prog (Prog.wf_of hw ha) (layout_of_tree hw ha hpos).toLayoutCore.nested
+  topLevel_prog_core hw (layoutCore_of_tree hw hpos).nested
 
 /-- **The expected report, languages with nested functions.**  The expected measurements of the
 layout specification are those of the tree: for every function node, in preorder, the text of
 its name token, the location of its first header token, the location just past its closing
 brace, and the number of distinct lines of its OWN tokens (`ownToks`: header, gap, braces and the
 body tokens that are not inside a nested function node).  In particular
-`countDistinct (ownLines …)` = the number of distinct lines of the own tokens. -/
-theorem expected_of_tree {p : Prog Tok} (hw : p.wfCore = true) (ha : p.noAdj = true)
+`countDistinct (ownLines …)` = the number of distinct lines of the own tokens.  (No `noAdj`: the
+two SPECIFICATIONS agree on every structurally well-formed forest; what needs `noAdj` is that
+`scan_file` computes them, G4.) -/
+theorem expected_of_tree {p : Prog Tok} (hw : p.wfCore = true)
     (hpos : PosSorted p.flat) :
     p.fns.map (expected p.flat p.fns) = (treeReport p).map some :=
-  expected_prog (Prog.wf_of hw ha) (layout_of_tree hw ha hpos).toLayoutCore.nested
+  expected_prog_core hw (layoutCore_of_tree hw hpos).nested
 
 /-- **Own lines.**  For every function node, in preorder: the number of distinct lines of
 the layout specification (`ownLines`: tokens from the first header token to the closing brace
 whose index lies in no function nested in it) is the number of distinct lines of its own tokens
 in the tree (the `len` of `treeReport`: `countDistinct ((ownToks …).map (·.line))`). -/
-theorem own_lines_of_tree {p : Prog Tok} (hw : p.wfCore = true) (ha : p.noAdj = true)
+theorem own_lines_of_tree {p : Prog Tok} (hw : p.wfCore = true)
     (hpos : PosSorted p.flat) :
     p.fns.map (fun f => countDistinct (ownLines p.flat p.fns f)) = (treeReport p).map (·.len) := by
-  have h := expected_of_tree hw ha hpos
-  have hL := (layout_of_tree hw ha hpos).toLayoutCore
+  have h := expected_of_tree hw hpos
+  have hL := layoutCore_of_tree hw hpos
   have h2 : p.fns.map (fun f => some (countDistinct (ownLines p.flat p.fns f)))
       = (p.fns.map (expected p.flat p.fns)).map (Option.map (·.len)) := by
     rw [List.map_map]
@@ -130,14 +168,14 @@ theorem own_lines_of_tree {p : Prog Tok} (hw : p.wfCore = true) (ha : p.noAdj = 
 
 /-- **The expected report, languages without nested functions**: the function nodes that are
 not inside another function node, each with the number of distinct lines of ALL its tokens. -/
-theorem expectedFlat_of_tree {p : Prog Tok} (hw : p.wfCore = true) (ha : p.noAdj = true)
+theorem expectedFlat_of_tree {p : Prog Tok} (hw : p.wfCore = true)
     (hpos : PosSorted p.flat) :
     (topLevel p.fns).map (expectedFlat p.flat) = (treeReportFlat p).map some :=
-  expectedFlat_prog (Prog.wf_of hw ha) (layout_of_tree hw ha hpos).toLayoutCore.nested
+  expectedFlat_prog_core hw (layoutCore_of_tree hw hpos).nested
 
 /-! ## G4: the whole of `scan_file` -/
 
-/-- **G4 (partial: needs `noAdj`).**  Let `p` be a forest of located tokens: structurally
+/-- **G4 (`_partial`: conditional on header discovery, hypotheses `hh` / `hperm`).**  Let `p` be a forest of located tokens: structurally
 well-formed (`wfCore`), no function directly followed by a brace group (`noAdj`), token
 locations strictly increasing; let `all` be a token list whose code tokens are the token
 sequence of `p` (comments and whitespace may be interspersed).  If the header extraction of a
@@ -145,7 +183,10 @@ brace-block language `L` finds the headers of the function nodes of `p` (in any 
 function is marked with a suppression comment, then `scan_file` succeeds and returns exactly the
 tree report: `treeReport p` if `L` reports nested functions, `treeReportFlat p` otherwise.
 
-Full statement (FALSE, see `scan_of_tree_full_false`): the same without `noAdj`. -/
+`hh` and `hperm` speak about an intermediate result of the analysis, not about the input; they are
+discharged for the canonical fragments in `Props/C01full.lean`, `Props/C01arrow.lean`.  The
+canonical-fragment restriction `noAdj` cannot be dropped: the same statement without it is FALSE
+(`scan_of_tree_full_false`). -/
 theorem scan_of_tree_partial {L : Language} {all : List Tok} {p : Prog Tok}
     (hpy : L.python = false) (hw : p.wfCore = true) (ha : p.noAdj = true)
     (hpos : PosSorted p.flat) (hcode : filterTokens false all = p.flat)
@@ -154,17 +195,17 @@ theorem scan_of_tree_partial {L : Language} {all : List Tok} {p : Prog Tok}
     (hm : ∀ f ∈ p.fns, ¬ Marked all f.hdr.name.line) :
     scanFile L all = .ok (if L.nested = true then treeReport p else treeReportFlat p) := by
   have hL := layout_of_tree hw ha hpos
-  have hb := blocks_of_tree hw ha hpos
+  have hb := blocks_of_tree hw hpos
   by_cases hn : L.nested = true
   · obtain ⟨ms, h1, h2⟩ := C01.scan_of_layout_partial hcode hpy hn hh hperm hb hL hm
-    rw [expected_of_tree hw ha hpos] at h2
+    rw [expected_of_tree hw hpos] at h2
     rw [if_pos hn, h1, map_some_injective h2]
   · obtain ⟨ms, h1, h2⟩ := C01.scan_of_layout_flat_partial hcode hpy (by simpa using hn) hh hperm
       hb hL hm
-    rw [expectedFlat_of_tree hw ha hpos] at h2
+    rw [expectedFlat_of_tree hw hpos] at h2
     rw [if_neg hn, h1, map_some_injective h2]
 
-/-- **G4 for rendered forests (partial: needs `noAdj`).**  Let `p` be ANY forest of tokens
+/-- **G4 for rendered forests (`_partial`: conditional on header discovery).**  Let `p` be ANY forest of tokens
 without locations (line breaks `nl` and blank columns `col` arbitrary) that is structurally
 well-formed, has no function directly followed by a brace group, and consists of code tokens;
 these three decidable conditions do not mention locations (`Prog.bare` views the tokens at a
@@ -192,7 +233,7 @@ theorem layout_of_rendered_tree {p : Prog PTok} (hw : p.bare.wfCore = true)
       getBlocks (render p) = .ok p.located.blocks := by
   have hw' : p.located.wfCore = true := by rw [Prog.located, wfCore_locate]; exact hw
   have ha' : p.located.noAdj = true := by rw [Prog.located, noAdj_locate]; exact ha
-  exact ⟨layout_of_tree hw' ha' (render_pos_sorted p), blocks_of_tree hw' ha' (render_pos_sorted p)⟩
+  exact ⟨layout_of_tree hw' ha' (render_pos_sorted p), blocks_of_tree hw' (render_pos_sorted p)⟩
 
 /-! ## forests as lists of rose-tree nodes -/
 
@@ -250,6 +291,29 @@ theorem scan_of_tree_full_false :
 
 /-- the witness violates exactly the canonical-fragment restriction -/
 example : adjTree.wfCore = true ∧ adjTree.noAdj = false := by decide +kernel
+
+/-- **G1 - G3 do not need `noAdj`**: on the witness `adjTree` (structurally well-formed, a brace
+group directly after the function) `get_blocks` finds the two blocks of the tree, all clauses of
+`LayoutCore` hold, and the index-level specification (`parent`, `expected`, `expectedFlat`) is the
+tree-level one - by the theorems, and again by kernel evaluation.  Only `no_adjacent` fails. -/
+theorem adjTree_G123 :
+    PosSorted adjTree.flat ∧
+    getBlocks adjTree.flat = .ok adjTree.blocks ∧ adjTree.blocks = [⟨3, 7⟩, ⟨7, 11⟩] ∧
+    LayoutCore adjTree.flat adjTree.fns adjTree.blocks ∧
+    ¬ Layout adjTree.flat adjTree.fns adjTree.blocks ∧
+    adjTree.fns.map (parent adjTree.fns) = parentsOf adjTree 0 none ∧
+    adjTree.fns.map (expected adjTree.flat adjTree.fns) = (treeReport adjTree).map some ∧
+    (topLevel adjTree.fns).map (expectedFlat adjTree.flat) = (treeReportFlat adjTree).map some ∧
+    treeReport adjTree = [⟨[102], 1, 1, 3, 2, 3⟩] := by
+  have hw : adjTree.wfCore = true := by decide +kernel
+  have hflat : adjTree.flat = C01Adj.code := by decide +kernel
+  have hpos : PosSorted adjTree.flat := hflat ▸ C01Adj.posSorted
+  exact ⟨hpos, blocks_of_tree hw hpos, by decide +kernel, layoutCore_of_tree hw hpos,
+    by decide +kernel, parent_of_tree hw hpos, expected_of_tree hw hpos,
+    expectedFlat_of_tree hw hpos, by decide +kernel⟩
+
+example : adjTree.fns.map (expected adjTree.flat adjTree.fns) = [some ⟨[102], 1, 1, 3, 2, 3⟩] := by
+  decide +kernel
 
 /-! ## non-vacuity: concrete forests, discovery hypothesis discharged by kernel evaluation -/
 
